@@ -1,7 +1,8 @@
 """C13 — controller loop.
 Correspondence: run_control on generated nets with DiscreteTapControl / ContinuousTapControl / ConstControl /
 CharacteristicControl sets (random levels, orders, in_service, start taps); every is_converged / control_step / run call
-is recorded by wrapping the controller methods and the run function; the recorded power-flow results are the oracle
+(and, for controllers over index arrays / with hunting_limit / TapDependentImpedance, the attribute matrices _hunting_taps and
+initial_values after every control_step) is recorded by wrapping the controller methods and the run function; the recorded power-flow results are the oracle
 stream fed to C13.Model.run_out, whose call trace (verdicts, written values, outcome) must equal the recorded one.
 Oracle: the property's own text on the returned net (every controller converged, band or limit, bounds, fresh results,
 ascending order), independent of the model."""
@@ -10,21 +11,28 @@ import numpy as np
 import pandapower as pp
 import pandapower.control as pc
 from pandapower.control.util.characteristic import Characteristic
+from pandapower.control.controller.trafo.TapDependentImpedance import TapDependentImpedance
 from fractions import Fraction
 from vf import coqrun as cq
 
 RULE = ("radial 110/20/0.4 kV nets with 2-4 transformers (2W and one optional 3W), random loads, 1-5 controllers "
-        "(discrete/continuous tap, both sides, const, characteristic Q(V) and tap->vk) with levels in {0,1,2,[0,1]}, random "
-        "orders, in_service flags, start taps anywhere in [tap_min,tap_max], max_iter in {30,3,1,0}; non-trivial = at least one "
-        "control_step was executed and at least two controllers are in service")
+        "(discrete/continuous tap, both sides, const, characteristic Q(V) and tap->vk; about a third of them over index ARRAYS: "
+        "DiscreteTapControl / ContinuousTapControl over 1-4 transformers, CharacteristicControl over several sgens, "
+        "TapDependentImpedance over one or several transformers with restore on/off; DiscreteTapControl with hunting_limit in "
+        "{None,0,1,2,3}) with levels in {0,1,2,[0,1]}, random orders, in_service flags, start taps anywhere in [tap_min,tap_max], "
+        "max_iter in {30,3,1,0}; non-trivial = at least one control_step was executed and at least two controllers are in service")
 ASSUMPTIONS = ["the power flow is an oracle: the model consumes the result vectors recorded from the real run function",
                "nothing_to_do(net) of a tap controller is constant during one run_control call (checked on every is_converged call)",
                "is_converged of tap and const controllers does not write to the element tables (checked by snapshot on every call)"]
-TRUSTED = ["method wrappers on the controller instances (is_converged, control_step) and the run= keyword of run_control"]
+ASSUMPTIONS += ["index arrays of one controller list distinct elements (pandas .loc assignment with duplicate labels is not modelled)",
+                "vector DiscreteTapControl is created with explicit scalar vm_lower_pu / vm_upper_pu (from_tap_step_percent makes them vectors)"]
+TRUSTED = ["method wrappers on the controller instances (is_converged, control_step) and the run= keyword of run_control",
+           "the attribute reads _hunting_taps / initial_values after each control_step"]
 
 KF_MULTI = "C13-multilevel-lower-level-disturbed"
 KF_CHAR = "C13-characteristic-writes-in-is-converged"
 KF_FRAC = "C13-discrete-step-from-fractional-tap"
+KF_TDI = "C13-tdi-restore-after-last-calculation"
 T2 = ["0.63 MVA 20/0.4 kV", "0.4 MVA 20/0.4 kV", "0.25 MVA 20/0.4 kV"]
 
 
@@ -99,6 +107,9 @@ def add_controllers(rng, net, allow_frac):
         el = "trafo3w" if use3w else "trafo"
         tid = int(rng.choice(list(net[el].index)))
         side = rng.choice(["lv", "lv", "hv"] + (["mv"] if use3w else []))
+        if rng.random() < 0.36:
+            _add_vector_controller(rng, net, descs, kw, el, tid, side)
+            continue
         if r < 0.4:
             vs = rng.choice([0.96, 0.98, 1.0, 1.0, 1.02, 1.04])
             half = rng.choice([0.01, 0.02, 0.02, 0.03, 0.005])
@@ -141,6 +152,52 @@ def add_controllers(rng, net, allow_frac):
     return descs
 
 
+def _add_vector_controller(rng, net, descs, kw, el, tid, side):
+    """controllers over index arrays, hunting_limit, TapDependentImpedance"""
+    r = rng.random()
+    ids = list(net[el].index)
+    tids = [int(t) for t in rng.sample(ids, rng.randint(1, len(ids)))]
+    if r < 0.45:
+        vs = rng.choice([0.96, 0.98, 1.0, 1.0, 1.02, 1.04])
+        half = rng.choice([0.01, 0.02, 0.02, 0.03, 0.005])
+        hl = rng.choice([None, None, 0, 1, 2, 3])
+        scalar = rng.random() < 0.3
+        idx = tid if scalar else tids
+        c = pc.DiscreteTapControl(net, idx, vs - half, vs + half, side=side, element=el, hunting_limit=hl, **kw)
+        descs.append({"type": "discv", "obj": c, "element": el, "tids": [tid] if scalar else tids, "side": side,
+                      "scalar": scalar, "hl": hl})
+    elif r < 0.7:
+        c = pc.ContinuousTapControl(net, tids, vm_set_pu=rng.choice([0.97, 1.0, 1.0, 1.03, 1.2]),
+                                    tol=rng.choice([1e-3, 1e-3, 1e-4, 1e-2]), side=side, element=el,
+                                    check_tap_bounds=rng.random() < 0.85, **kw)
+        descs.append({"type": "contv", "obj": c, "element": el, "tids": tids, "side": side, "scalar": False})
+    elif r < 0.82 and len(net.sgen) >= 1:
+        sgs = [int(x) for x in rng.sample(list(net.sgen.index), rng.randint(1, len(net.sgen)))]
+        buses = [int(net.sgen.at[i, "bus"]) for i in sgs]
+        q = rng.choice([0.05, 0.1, 0.2])
+        ch = Characteristic(net, [0.94, 0.98, 1.02, 1.06], [q, 0.0, 0.0, -q])
+        c = pc.CharacteristicControl(net, "sgen", "q_mvar", sgs, "res_bus", "vm_pu", buses, ch.index,
+                                     tol=rng.choice([1e-3, 1e-4, 1e-6]), **kw)
+        descs.append({"type": "charv", "obj": c, "in_res": True, "ios": [(b, 2000 + i) for b, i in zip(buses, sgs)],
+                      "pts": list(zip(ch.x_vals, ch.y_vals)), "out_els": [("sgen", "q_mvar", i) for i in sgs], "tdi": None})
+    else:
+        # TapDependentImpedance: tap_pos -> vk_percent of the same transformers, restore on/off
+        ts = [int(t) for t in rng.sample(list(net.trafo.index), rng.randint(1, len(net.trafo)))]
+        scalar = rng.random() < 0.4
+        t0 = ts[0]
+        vk = float(net.trafo.at[t0, "vk_percent"])
+        lo, hi = float(net.trafo.at[t0, "tap_min"]), float(net.trafo.at[t0, "tap_max"])
+        ch = Characteristic(net, [lo, 0.0, hi], [vk * 0.875, vk, vk * 1.125])
+        restore = rng.random() < 0.5
+        c = TapDependentImpedance(net, t0 if scalar else ts, ch.index, restore=restore, **kw)
+        if rng.random() < 0.3:
+            c.applied = True       # as left by an earlier run_control call (initialize_control does not reset it)
+        ts = [t0] if scalar else ts
+        descs.append({"type": "charv", "obj": c, "in_res": False, "ios": [(tap_slot("trafo", t), 3000 + t) for t in ts],
+                      "pts": list(zip(ch.x_vals, ch.y_vals)), "out_els": [("trafo", "vk_percent", t) for t in ts],
+                      "tdi": restore})
+
+
 def tap_slot(el, tid):
     return tid if el == "trafo" else 1000 + tid
 
@@ -156,7 +213,33 @@ def read_vars(net, descs):
         if d["type"] == "char":
             el, var, i = d["out_el"]
             v[d["out"]] = float(net[el].at[i, var])
+        if d["type"] == "charv":
+            for (_, slot), (el, var, i) in zip(d["ios"], d["out_els"]):
+                v[slot] = float(net[el].at[i, var])
     return v
+
+
+def read_attrs(d):
+    """matrix-valued controller attributes the model tracks (None = not modelled for this controller kind)"""
+    c = d["obj"]
+    if d["type"] == "discv":
+        h = np.asarray(c._hunting_taps, dtype=float)
+        h = h.reshape(1, 1) if h.ndim == 0 else (h.reshape(1, -1) if h.ndim == 1 else h)
+        return [[float(x) for x in row] for row in h]
+    if d["type"] == "charv":
+        if d["tdi"]:
+            return [[float(x) for x in np.atleast_1d(np.asarray(c.initial_values, dtype=float))]]
+        return []
+    if d["type"] == "contv":
+        return []
+    return None
+
+
+def static_ntd_v(net, d):
+    el, side = d["element"], d["side"]
+    eg = set(int(b) for b in net.ext_grid.loc[net.ext_grid.in_service, "bus"].values)
+    controlled = [bool(net[el].at[t, "in_service"]) and int(net[el].at[t, side + "_bus"]) not in eg for t in d["tids"]]
+    return not any(controlled)
 
 
 def read_res(net):
@@ -209,18 +292,18 @@ def one_case(ctx, rng, forced=None):
         ic, cs = c.is_converged, c.control_step
 
         def is_conv(n):
-            before = table_snapshot(n) if d["type"] in ("disc", "cont", "const") else None
+            before = table_snapshot(n) if d["type"] in ("disc", "cont", "const", "discv", "contv") else None
             r = bool(ic(n))
             if before is not None and before != table_snapshot(n):
                 notes.append("is_converged of controller %d wrote to the element tables" % d["cid"])
-            if d["type"] in ("disc", "cont") and bool(c.nothing_to_do(n)) != d["ntd"]:
+            if d["type"] in ("disc", "cont", "discv", "contv") and bool(c.nothing_to_do(n)) != d["ntd"]:
                 notes.append("nothing_to_do of controller %d changed during the run" % d["cid"])
             trace.append(["conv", d["cid"], r, read_vars(n, descs)])
             return r
 
         def step(n):
             cs(n)
-            trace.append(["step", d["cid"], read_vars(n, descs)])
+            trace.append(["step", d["cid"], read_vars(n, descs), read_attrs(d)])
 
         rp = c.repair_control
 
@@ -243,10 +326,12 @@ def one_case(ctx, rng, forced=None):
     for d in descs:
         if d["type"] in ("disc", "cont"):
             d["ntd"] = static_ntd(net, d)
+        if d["type"] in ("discv", "contv"):
+            d["ntd"] = static_ntd(net, dict(d, tid=d["tids"][0])) if d["scalar"] else static_ntd_v(net, d)
         wrap(d)
     vars0 = read_vars(net, descs)
     res0 = read_res(net)
-    applied0 = {d["cid"]: bool(d["obj"].applied) for d in descs if d["type"] in ("const", "char")}
+    applied0 = {d["cid"]: bool(d["obj"].applied) for d in descs if d["type"] in ("const", "char", "charv")}
     ctab = net.controller.copy()
     outcome = "ok"
     try:
@@ -289,6 +374,31 @@ def one_case(ctx, rng, forced=None):
                 kind = "(KCont %s {| k_vset := %s; k_tol := %s; k_step := %s; k_tnom := %s; k_check := %s |})" % (
                     tapc, cq.q(float(c.vm_set_pu)), cq.q(float(c.tol)), cq.q(float(net[el].at[tid, "tap_step_percent"])),
                     cq.q(float(c.t_nom)), cq.b(c.check_tap_bounds))
+        elif d["type"] in ("discv", "contv"):
+            el = d["element"]
+            recs = []
+            for tid in d["tids"]:
+                deg = float(net[el].at[tid, "tap_step_degree"])
+                cs_ = None if math.isnan(deg) else int(np.sign(np.cos(np.deg2rad(deg))))
+                dirt = "(dir_of %s %s %s %s)" % (cq.b(net[el].at[tid, "tap_side"] == "hv"), cq.b(d["side"] == "hv"),
+                                                 cq.b(float(net[el].at[tid, "tap_step_percent"]) < 0), cq.opt(cs_, cq.z))
+                recs.append("{| t_trafo := %s; t_bus := %s; t_min := %s; t_max := %s; t_dir := %s; t_ntd := false |}" % (
+                    cq.nat(tap_slot(el, tid)), cq.nat(int(net[el].at[tid, d["side"] + "_bus"])),
+                    cq.q(float(net[el].at[tid, "tap_min"])), cq.q(float(net[el].at[tid, "tap_max"])), dirt))
+            if d["type"] == "discv":
+                kind = "(KDiscV %s %s %s %s %s)" % (cq.lst(recs), cq.b(d["ntd"]), cq.q(float(c.vm_lower_pu)),
+                                                    cq.q(float(c.vm_upper_pu)), cq.opt(d["hl"], cq.nat))
+            else:
+                tn = np.atleast_1d(np.asarray(c.t_nom, dtype=float))
+                pars = ["{| k_vset := %s; k_tol := %s; k_step := %s; k_tnom := %s; k_check := %s |}" % (
+                    cq.q(float(c.vm_set_pu)), cq.q(float(c.tol)), cq.q(float(net[el].at[tid, "tap_step_percent"])),
+                    cq.q(float(tn[k])), cq.b(c.check_tap_bounds)) for k, tid in enumerate(d["tids"])]
+                kind = "(KContV %s %s)" % (cq.lst(["(%s, %s)" % (a, b_) for a, b_ in zip(recs, pars)]), cq.b(d["ntd"]))
+        elif d["type"] == "charv":
+            kind = "(KCharV %s %s %s %s %s)" % (
+                cq.b(d["in_res"]), cq.lst(["(%s, %s)" % (cq.nat(i), cq.nat(o)) for i, o in d["ios"]]),
+                cq.lst(["(%s, %s)" % (cq.q(float(x)), cq.q(float(y))) for x, y in d["pts"]]), cq.q(float(c.tol)),
+                cq.opt(d["tdi"], cq.b))
         elif d["type"] == "const":
             kind = "KConst"
         else:
@@ -299,7 +409,7 @@ def one_case(ctx, rng, forced=None):
         ents.append("(Build_centry (%s, %s) (Some %s) %s %s %s)" % (
             cq.nat(d["cid"]), kind, cq.lst([cq.q(x) for x in levs]), cq.q(float(row["order"])),
             cq.b(bool(row["in_service"])), cq.b(bool(row["initial_run"]))))
-    st = "{| vars := %s; res := %s; applied := %s; stream := %s |}" % (
+    st = "{| vars := %s; res := %s; applied := %s; attrs := []; stream := %s |}" % (
         slots_term(vars0), slots_term(res0),
         cq.lst(["(%s, %s)" % (cq.nat(k), cq.b(v)) for k, v in sorted(applied0.items())]),
         cq.lst(["(%s, %s)" % (slots_term(r), cq.b(ok)) for r, ok in stream]))
@@ -331,13 +441,17 @@ def one_case(ctx, rng, forced=None):
                     ctx.count("unconverged_lower_level_with_check_each_level_off")
                     continue
                 kind = KF_MULTI if (multi and min(lv) < last_level) else "spec"
+                if kind == "spec" and _tdi_restored(d, trace):
+                    kind = KF_TDI
                 viol.append((kind, "run_control returned but controller %d (%s, level %s) reports not converged" % (
                     d["cid"], d["type"], lv)))
         # (c) band or limit in the needed direction, read from the tables
         for d in in_service:
-            if d["type"] not in ("disc", "cont") or d["ntd"]:
+            if d["type"] not in ("disc", "cont", "discv", "contv") or d["ntd"]:
                 continue
-            w = _band_or_limit(net, d)
+            w = None
+            for tid in ([d["tid"]] if "tid" in d else d["tids"]):       # EVERY element of a vector controller
+                w = w or _band_or_limit(net, dict(d, tid=tid, type=d["type"][:4]))
             if w:
                 lv = _levels(ctab, d)
                 if not cel and max(lv) != top_level:
@@ -361,26 +475,59 @@ def one_case(ctx, rng, forced=None):
         except Exception as e:
             fresh_bad = "fresh power flow of the final state raised %s" % type(e).__name__
         if fresh_bad:
-            fb = any(d["type"] == "char" and d["in_res"] for d in in_service)
-            viol.append((KF_CHAR if fb else "spec", fresh_bad))
+            kind = "spec"
+            tdis = [d for d in in_service if _tdi_restored(d, trace)]
+            if tdis:
+                # the recorded finding exactly: with the values the TapDependentImpedance controllers had written (and
+                # finalize_control took back) the results ARE the fresh power flow
+                for d in tdis:
+                    last = [e for e in trace if e[0] == "step" and e[1] == d["cid"]][-1]
+                    for (_, slot), (el, var, i) in zip(d["ios"], d["out_els"]):
+                        net[el].at[i, var] = last[2][slot]
+                try:
+                    pp.runpp(net, **PF)
+                    if all(np.allclose(df.values.astype(float), net[t].values.astype(float), rtol=0, atol=1e-6, equal_nan=True)
+                           for t, df in snap.items()):
+                        kind = KF_TDI
+                except Exception:
+                    pass
+            viol.append((kind, fresh_bad))
     # (b) bounds after every step (given a start inside)
     for e in trace:
         if e[0] != "step":
             continue
         d = by_idx[e[1]]
-        if d["type"] not in ("disc", "cont"):
+        if d["type"] not in ("disc", "cont", "discv", "contv"):
             continue
-        if d["type"] == "cont" and not d["obj"].check_tap_bounds:
+        if d["type"] in ("cont", "contv") and not d["obj"].check_tap_bounds:
             continue
-        el, tid = d["element"], d["tid"]
-        tp = e[2][tap_slot(el, tid)]
-        lo, hi = float(net[el].at[tid, "tap_min"]), float(net[el].at[tid, "tap_max"])
-        prev = _prev_tap(trace, e, tap_slot(el, tid), vars0)
-        if not math.isnan(tp) and not (lo <= tp <= hi) and prev is not None and lo <= prev <= hi:
-            frac = d["type"] == "disc" and prev != int(prev)
-            viol.append((KF_FRAC if frac else "spec", "controller %d moved tap_pos of %s %d to %r outside [%r, %r]" % (
-                d["cid"], el, tid, tp, lo, hi)))
+        el = d["element"]
+        bad = False
+        for tid in ([d["tid"]] if "tid" in d else d["tids"]):       # element-wise for index arrays
+            tp = e[2][tap_slot(el, tid)]
+            lo, hi = float(net[el].at[tid, "tap_min"]), float(net[el].at[tid, "tap_max"])
+            prev = _prev_tap(trace, e, tap_slot(el, tid), vars0)
+            if not math.isnan(tp) and not (lo <= tp <= hi) and prev is not None and lo <= prev <= hi:
+                frac = d["type"] == "disc" and prev != int(prev)
+                viol.append((KF_FRAC if frac else "spec", "controller %d moved tap_pos of %s %d to %r outside [%r, %r]" % (
+                    d["cid"], el, tid, tp, lo, hi)))
+                bad = True
+                break
+        if bad:
             break
+    # (b2) hunting_limit: the window never holds more than max(hunting_limit, 1) rows and its last row is the written taps
+    for e in trace:
+        if e[0] == "step" and by_idx[e[1]]["type"] == "discv" and e[3] is not None and not by_idx[e[1]]["ntd"]:
+            d = by_idx[e[1]]
+            rows = e[3]
+            want = [e[2][tap_slot(d["element"], t)] for t in d["tids"]]
+            if d["hl"] is not None and len(rows) > max(d["hl"], 1):
+                viol.append(("spec", "controller %d: _hunting_taps has %d rows, hunting_limit %r" % (d["cid"], len(rows), d["hl"])))
+                break
+            if not rows or not all((math.isnan(a) and math.isnan(b_)) or a == b_ for a, b_ in zip(rows[-1], want)):
+                viol.append(("spec", "controller %d: last row of _hunting_taps %r is not the written tap vector %r" % (
+                    d["cid"], rows[-1] if rows else None, want)))
+                break
     # (e) ascending (level, order) inside every pass
     w = _order_ok(trace, ctab)
     if w:
@@ -393,7 +540,11 @@ def one_case(ctx, rng, forced=None):
     ctx.count("levels_%d" % len(nonempty_levels))
     ctx.count("steps_%d" % min(steps, 6))
     for d in in_service:
-        ctx.count("ctrl_" + d["type"])
+        ctx.count("ctrl_" + d["type"] + ("_tdi" if d.get("tdi") is not None else ""))
+        if d["type"] == "discv":
+            ctx.count("hunting_limit_%s" % d["hl"])
+        if d["type"] in ("discv", "contv") and not d["scalar"]:
+            ctx.count("vector_elements_%d" % len(d["tids"]))
     ctx.case(case, nontrivial=steps > 0 and len(in_service) >= 2,
              sample={"controllers": case["controllers"], "outcome": str(outcome), "trace": case["trace"][:12]})
     tie = False
@@ -406,6 +557,18 @@ def one_case(ctx, rng, forced=None):
         ctx.count("order_ties_trace_not_compared")
     impl = [outcome, trace, final_vars, post, tie]
     return term, oterm, impl, case, ctab, descs
+
+
+def _tdi_restored(d, trace):
+    """guard of the recorded finding: a TapDependentImpedance with restore=True that has written a value different from the
+    one finalize_control puts back"""
+    if d["type"] != "charv" or not d["tdi"]:
+        return False
+    steps = [e for e in trace if e[0] == "step" and e[1] == d["cid"]]
+    if not steps:
+        return False
+    init = steps[-1][3][0]
+    return any(abs(steps[-1][2][slot] - v0) > 1e-12 for (_, slot), v0 in zip(d["ios"], init))
 
 
 def _strip(net):
@@ -435,6 +598,15 @@ def _cdesc(d, ctab):
     if d["type"] == "char":
         out.update(in_res=d["in_res"], inp=d["inp"], out_el=list(d["out_el"]), pts=[list(map(float, p)) for p in d["pts"]],
                    tol=float(c.tol))
+    if d["type"] in ("discv", "contv"):
+        out.update(element=d["element"], tids=d["tids"], side=d["side"], scalar_index=d["scalar"])
+        if d["type"] == "discv":
+            out.update(vm_lower_pu=float(c.vm_lower_pu), vm_upper_pu=float(c.vm_upper_pu), hunting_limit=d["hl"])
+        else:
+            out.update(vm_set_pu=float(c.vm_set_pu), tol=float(c.tol), check_tap_bounds=bool(c.check_tap_bounds))
+    if d["type"] == "charv":
+        out.update(in_res=d["in_res"], ios=[list(x) for x in d["ios"]], out_els=[list(x) for x in d["out_els"]],
+                   pts=[list(map(float, p)) for p in d["pts"]], tol=float(c.tol), tap_dependent_impedance_restore=d["tdi"])
     return out
 
 
@@ -599,6 +771,34 @@ def _multi_element_oracle(ctx, rng):
     ctx.case(case, nontrivial=True)
 
 
+def _hunting_oracle(ctx, rng):
+    """C13_hunting_limit_irrelevant_over_runs on the real code: the same net and DiscreteTapControl (scalar or index array)
+    run with hunting_limit = None and with a small limit must end with the same outcome, taps and voltages"""
+    net = build_net(rng)
+    tids = [int(t) for t in rng.sample(list(net.trafo.index), rng.randint(1, len(net.trafo)))]
+    vs = rng.choice([0.98, 1.0, 1.02, 1.04])
+    half = rng.choice([0.002, 0.005, 0.01, 0.02])       # narrow bands provoke hunting
+    hl = rng.choice([0, 1, 2, 3])
+    idx = tids[0] if rng.random() < 0.3 else tids
+    outs = []
+    for lim in (None, hl):
+        n = copy.deepcopy(net)
+        pc.DiscreteTapControl(n, idx, vs - half, vs + half, side="lv", hunting_limit=lim)
+        try:
+            pc.run_control(n, max_iter=12, **PF)
+            o = "ok"
+        except Exception as e:
+            o = type(e).__name__
+        outs.append((o, n.trafo.tap_pos.values.astype(float).copy(),
+                     n.res_bus.vm_pu.values.astype(float).copy() if len(n.res_bus) else np.array([])))
+    case = {"kind": "hunting", "net": pp.to_json(net), "index": idx, "band": [vs - half, vs + half], "hunting_limit": hl}
+    ctx.case(case, nontrivial=True)
+    ctx.count("hunting_oracle_%s" % outs[0][0])
+    (o1, t1, v1), (o2, t2, v2) = outs
+    if o1 != o2 or not np.array_equal(t1, t2, equal_nan=True) or v1.shape != v2.shape or not np.allclose(v1, v2, atol=1e-12, equal_nan=True):
+        ctx.violation("spec", "hunting_limit=%r changes the run: outcome %s vs %s, taps %s vs %s" % (hl, o1, o2, t1, t2), case)
+
+
 def _cmp_slots(a, b):
     """a: dict from impl; b: list of [k, v] from model"""
     bd = {k: v for k, v in b}
@@ -611,6 +811,21 @@ def _cmp_slots(a, b):
                 return False
         elif abs(float(m) - v) > 1e-9 * max(1.0, abs(v)):
             return False
+    return True
+
+
+def _cmp_rows(a, b):
+    if len(a) != len(b):
+        return False
+    for ra, rb in zip(a, b):
+        if len(ra) != len(rb):
+            return False
+        for x, y in zip(ra, rb):
+            if fnum(x) is None or y is None:
+                if not (fnum(x) is None and y is None):
+                    return False
+            elif abs(float(y) - x) > 1e-9 * max(1.0, abs(x)):
+                return False
     return True
 
 
@@ -635,6 +850,8 @@ def compare(impl, mod):
         elif a[0] == "step":
             if a[1] != m[1] or not _cmp_slots(a[2], m[2]):
                 return "event %d: impl %s model %s" % (k, a, m)
+            if a[3] is not None and not _cmp_rows(a[3], m[3]):
+                return "event %d: controller attribute (_hunting_taps / initial_values) impl %s model %s" % (k, a[3], m[3])
         elif a[0] in ("run", "repair"):
             if a[1] != m[1]:
                 return "event %d: impl %s model %s" % (k, a, m)
@@ -685,6 +902,8 @@ def run(ctx):
     for case, impl, mod in zip(cases, impls, model):
         ctx.corr_checked += 1
         w = compare(impl, mod)
+        if not impl[4] and not isinstance(mod, cq.Err):
+            ctx.count("attribute_matrices_compared", sum(1 for e in impl[1] if e[0] == "step" and e[3] is not None and len(e[3]) > 0))
         if w:
             ctx.disagreement("run_control call trace differs from the Coq loop: " + w[:600], case)
     omodel = ctx.coq_eval("c13o", "Base.QN C13.Model", oterms, shard=50, timeout=1200)
@@ -705,6 +924,8 @@ def run(ctx):
         _direction_check(ctx, rng)
     for k in range(ctx.n(30, 300)):
         _multi_element_oracle(ctx, rng)
+    for k in range(ctx.n(12, 150)):
+        _hunting_oracle(ctx, rng)
 
 
 def replay(ctx, rec):
